@@ -65,6 +65,10 @@ class Probe(TapeRecorder):
         """_phase = index of the running thread (0 = victim, 1 = its interferer, 2 = the interferer's interferer) or None;
         thread k is preempted just before its _fire_at[k]-th event by thread k+1, which runs to completion."""
         d = self.__dict__
+        if d.get("_sched") is not None:
+            if d["_depth"] == 0:
+                d["_sched"].boundary()
+            return
         k = d["_phase"]
         if k is None or d["_depth"] > 0:
             return
@@ -79,6 +83,50 @@ class Probe(TapeRecorder):
                 d["_phase"] = k
                 d["_depth"] = depth
         count[k] += 1
+
+
+class Scheduler(object):
+    """Real threads, one per method, run strictly one at a time: a thread stops just before each of its events (shared
+    access / locked region / hand-over to the cassette) and goes on only when the schedule names it."""
+    WAIT = 20
+
+    def __init__(self, n):
+        self.tl = threading.local()
+        self.go = [threading.Semaphore(0) for _ in range(n)]
+        self.arrived = threading.Semaphore(0)
+        self.done = [False] * n
+        self.stuck = False
+
+    def boundary(self):
+        i = getattr(self.tl, "idx", None)
+        if i is None:
+            return
+        self.arrived.release()
+        if not self.go[i].acquire(timeout=self.WAIT):
+            self.stuck = True
+            raise SystemExit("scheduler: thread %d never resumed" % i)
+
+    def thread(self, i, fn):
+        def body():
+            self.tl.idx = i
+            try:
+                self.boundary()             # wait for the first grant before doing anything
+                fn()
+            finally:
+                self.done[i] = True
+                self.tl.idx = None
+                self.arrived.release()
+        t = threading.Thread(target=body)
+        t.daemon = True
+        return t
+
+    def step(self, i):
+        if self.done[i]:
+            return
+        self.go[i].release()
+        if not self.arrived.acquire(timeout=self.WAIT):
+            self.stuck = True
+            raise RuntimeError("scheduler: thread %d did not reach its next event" % i)
 
 
 class Cas(InMemoryTapeCassette):
@@ -152,6 +200,9 @@ def run_race(case):
             out[who] = "other:" + type(ex).__name__
 
     d = rec.__dict__
+    if "sched" in case:
+        return run_scheduled(case, rec, cas, guarded, out, exited, cm)
+
     def run_third():
         d["_phase"] = 2
         guarded("third", case["third"])
@@ -176,6 +227,50 @@ def run_race(case):
            "fs": bool(d.get("_v_force_sample")), "handed": min(cas.handed, 2),
            "has_lock": hasattr(TapeRecorder(InMemoryTapeCassette()), "_finalization_lock")}
     # leave the scope (outside the experiment)
+    if not exited[0]:
+        try:
+            cm.__exit__(None, None, None)
+        except Exception:
+            pass
+    return res
+
+
+def run_scheduled(case, rec, cas, guarded, out, exited, cm):
+    """an arbitrary schedule: case["methods"][i] runs on real thread i; case["sched"] = thread indices, one event each; what
+    is left afterwards runs to completion thread by thread.  (A thread's first grant only starts it: it then runs up to
+    its first event, so the schedule is prefixed by one start grant per thread.)"""
+    ms = case["methods"]
+    d = rec.__dict__
+    sch = Scheduler(len(ms))
+    names = ["victim", "interferer", "third"]
+    threads = [sch.thread(i, (lambda i=i: guarded(names[i], ms[i]))) for i in range(len(ms))]
+    d["_sched"] = sch
+    try:
+        for t in threads:
+            t.start()
+        for i in range(len(ms)):            # every thread arrives at its start boundary
+            if not sch.arrived.acquire(timeout=Scheduler.WAIT):
+                raise RuntimeError("scheduler: a thread did not start")
+        for i in range(len(ms)):            # start grant: run up to the first event
+            sch.step(i)
+        for i in case["sched"]:
+            sch.step(i)
+        for i in range(len(ms)):
+            guard = 0
+            while not sch.done[i]:
+                sch.step(i)
+                guard += 1
+                if guard > 100:
+                    raise RuntimeError("scheduler: thread %d does not finish" % i)
+        for t in threads:
+            t.join(Scheduler.WAIT)
+    finally:
+        d["_sched"] = None
+    res = {"victim": out.get("victim", "done"), "interferer": out.get("interferer", "done"), "third": out.get("third", "done"),
+           "events": -1,
+           "ar": d.get("_v_active_recording") is not None, "ap": d.get("_v_active_recording_parameters") is not None,
+           "fs": bool(d.get("_v_force_sample")), "handed": min(cas.handed, 2),
+           "has_lock": hasattr(TapeRecorder(InMemoryTapeCassette()), "_finalization_lock")}
     if not exited[0]:
         try:
             cm.__exit__(None, None, None)
